@@ -135,7 +135,11 @@ def inferOrder (o : Opts) (c : Cfg) (w0 after : List Nat) : List Nat :=
 
 def countOf (l : List Nat) (x : Nat) : Nat := (l.filter (· == x)).length
 
-inductive MoveKind | plain | tick (ticker : Nat) | timer
+inductive MoveKind
+  | plain                 -- forced: must have happened before the window can close
+  | begin (g : Nat)       -- instance g (global id) leaves awaitStart and calls f
+  | tick (ticker : Nat)   -- hedging tick of the given set
+  | timer                 -- a delay timer of the legacy executor
   deriving DecidableEq
 
 structure Delta where
@@ -144,13 +148,15 @@ structure Delta where
   ret : Option String
 
 structure Sys (σ : Type) where
-  moves : σ → List (MoveKind × σ)
+  moves : σ → List (MoveKind × σ)      -- enabled internal events, preferred order
+  movesRel : σ → List (MoveKind × σ)   -- the same events, ordered for "an observed start still has to be released"
   delta : σ → σ → Delta
   act : σ → String → Option σ
   ctxOf : σ → Nat → Bool
   wasStarted : σ → Nat → Bool
   isReleased : σ → Nat → Bool     -- the request of instance g has been released to start (search heuristic only)
-  doomed : σ → List Nat → Bool    -- some released request with a live context is not among the starts still to be observed in this window
+  doomed : σ → List Nat → Bool    -- some released request with a live context is not among the given (future) starts
+  lateStarts : Bool               -- a timer (hedging tick) can fire while a window is being closed
 
 structure Rem where
   starts : List Nat
@@ -178,77 +184,81 @@ def ctxMatches {σ} (sys : Sys σ) (s : σ) (w : Win) : Bool :=
     if ch == '-' then !sys.wasStarted s g
     else sys.wasStarted s g && (sys.ctxOf s g == (ch == 'C'))
 
-/-- depth-first search for a run matching the windows. `pend` is the driver action of the current
-window that has not been applied yet (it may take effect after internal events that were already
-under way, e.g. a hedging tick). Returns (found, remaining node budget). -/
+inductive Choice (σ : Type)
+  | act | close | move (m : MoveKind × σ)
+
+/-- Depth-first search for a run of the model matching the windows. `pend` is the driver action of
+the current window that has not been applied yet (it may take effect after internal events that were
+already under way, e.g. a hedging tick).
+
+A window is the list of events the driver saw between two of its actions. It normally ends in a
+state in which no internal event is enabled. One exception is real: a timer may fire while the
+driver is closing the window, so that the requests released by that hedging tick start partly in this
+window and partly in the next one. Therefore (if `lateStarts`) a window may close while released
+goroutines have not called `f` yet, provided their start is observed in a later window (or the trace
+ends).
+
+Returns (found, remaining node budget). -/
 def search {σ} (sys : Sys σ) : Nat → σ → Option String → Rem → Win → List Win → List Nat → Nat → Bool × Nat
   | 0, _, _, _, _, _, _, budget => (false, budget)
   | fuel + 1, s, pend, rem, cur, rest, ticks, budget =>
     if budget = 0 then (false, 0) else
     let budget := budget - 1
-    let mv0 := sys.moves s
-    -- pruning: a goroutine parked in awaitStart starts within the window in which a tick releases it
-    let dBefore := sys.doomed s rem.starts
-    -- heuristic: an observed start of a request that is still held back needs a tick (or a failure) first
-    let needTick := rem.starts.any fun g => !sys.isReleased s g
-    let mv := if needTick then (mv0.filter fun m => m.1 != .plain) ++ (mv0.filter fun m => m.1 == .plain) else mv0
-    let tickFirst : Bool × Nat :=
-      if needTick then
-        (mv.filter fun m => m.1 != .plain).foldl (fun (acc : Bool × Nat) m =>
-          if acc.1 then acc else
-          let ok := match m.1 with
-            | .plain => true
-            | .tick k => countOf ticks k + 1 ≤ cur.tb
-            | .timer => cur.tb ≥ 1
-          if !ok then acc else
-          match rem.consume (sys.delta s m.2) with
-          | none => acc
-          | some rem' =>
-            if !dBefore && sys.doomed m.2 rem'.starts then acc else
-            search sys fuel m.2 pend rem' cur rest (match m.1 with | .tick k => k :: ticks | _ => ticks) acc.2)
-          (false, budget)
-      else (false, budget)
-    if tickFirst.1 then tickFirst else
-    let budget := tickFirst.2
-    let mv := if needTick then mv0.filter (fun m => m.1 == .plain) else mv0
-    -- first choice: apply the pending driver action now
-    let actNow : Bool × Nat :=
-      match pend with
-      | some a =>
-        match sys.act s a with
-        | some s' => search sys fuel s' none rem cur rest ticks budget
-        | none => (false, budget)
-      | none => (false, budget)
-    if actNow.1 then actNow else
-    -- window can be closed here?
-    let closeHere : Bool × Nat :=
-      if pend.isNone && rem.done && (mv.all fun m => m.1 == .plain |> not) && ctxMatches sys s cur then
-        match rest with
-        | [] => (true, actNow.2)
-        | w :: ws => search sys fuel s (some w.act) (Rem.ofWin w) w ws ticks actNow.2
-      else (false, actNow.2)
-    if closeHere.1 then closeHere else
-    mv.foldl (fun (acc : Bool × Nat) m =>
+    let later := rest.flatMap (·.starts)
+    -- heuristic: an observed start of a request that is still held back needs a tick or a counted failure first
+    let needRel := rem.starts.any fun g => !sys.isReleased s g
+    let mv := if needRel then sys.movesRel s else sys.moves s
+    let isTimer (k : MoveKind) : Bool := match k with | .tick _ => true | .timer => true | _ => false
+    let canClose : Bool :=
+      pend.isNone && rem.done && ctxMatches sys s cur &&
+      mv.all fun m => match m.1 with
+        | .plain => false
+        | .begin g => sys.lateStarts && (rest.isEmpty || later.contains g)
+        | _ => true
+    let choices : List (Choice σ) :=
+      if needRel then
+        (mv.filter fun m => isTimer m.1).map .move ++ [.act, .close] ++ (mv.filter fun m => !isTimer m.1).map .move
+      else [.act, .close] ++ mv.map .move
+    let dBefore := sys.doomed s (rem.starts ++ later)
+    choices.foldl (fun (acc : Bool × Nat) ch =>
       if acc.1 then acc else
-      let ok := match m.1 with
-        | .plain => true
-        | .tick k => countOf ticks k + 1 ≤ cur.tb
-        | .timer => cur.tb ≥ 1
-      if !ok then acc else
-      match rem.consume (sys.delta s m.2) with
-      | none => acc
-      | some rem' =>
-        if m.1 != .plain && !dBefore && sys.doomed m.2 rem'.starts then acc else
-        search sys fuel m.2 pend rem' cur rest (match m.1 with | .tick k => k :: ticks | _ => ticks) acc.2)
-      (false, closeHere.2)
+      match ch with
+      | .act =>
+        match pend with
+        | some a =>
+          match sys.act s a with
+          | some s' => search sys fuel s' none rem cur rest ticks acc.2
+          | none => acc
+        | none => acc
+      | .close =>
+        if canClose then
+          match rest with
+          | [] => (true, acc.2)
+          | w :: ws => search sys fuel s (some w.act) (Rem.ofWin w) w ws ticks acc.2
+        else acc
+      | .move m =>
+        let ok := match m.1 with
+          | .tick k => countOf ticks k + 1 ≤ cur.tb
+          | .timer => cur.tb ≥ 1
+          | _ => true
+        if !ok then acc else
+        match rem.consume (sys.delta s m.2) with
+        | none => acc
+        | some rem' =>
+          -- pruning: a request released by a tick starts in this window or in a later one
+          if isTimer m.1 && !dBefore && sys.doomed m.2 (rem'.starts ++ later) then acc else
+          search sys fuel m.2 pend rem' cur rest (match m.1 with | .tick k => k :: ticks | _ => ticks) acc.2)
+      (false, budget)
 
+/-- "-" if a run was found; "search-budget" if the search gave up (no verdict); otherwise the model
+has no run with this observation. -/
 def accept {σ} (sys : Sys σ) (s0 : σ) (wins : List Win) : String :=
   match wins with
   | [] => "empty-trace"
   | w :: ws =>
     if wins.any (·.bad) then "not-quiescent" else
-    let r := search sys 700 s0 none (Rem.ofWin w) w ws [] 200000
-    if r.1 then "-" else if r.2 = 0 then "no-run-found(budget)" else "no-run-found"
+    let r := search sys 800 s0 none (Rem.ofWin w) w ws [] 60000
+    if r.1 then "-" else if r.2 = 0 then "search-budget" else "no-run-found"
 
 /-! ### the single-set system -/
 
@@ -277,15 +287,30 @@ def parseArrival (a : String) : Option (Nat × Char) :=
     | none => none
   else none
 
+def stOne (c : Cfg) (s : St) (k : MoveKind) (e : Ev) : List (MoveKind × St) :=
+  match step c s e with | some s' => [(k, s')] | none => []
+
 def stMoves (c : Cfg) (s : St) : List (MoveKind × St) :=
-  let one (k : MoveKind) (e : Ev) : List (MoveKind × St) := match step c s e with | some s' => [(k, s')] | none => []
+  let one := stOne c s
   one .plain .ctxDone ++ one .plain .recv ++ one .plain .drain ++
-  (List.range c.n).flatMap (fun i => one .plain (.begin i)) ++
+  (List.range c.n).flatMap (fun i => one (.begin i) (.begin i)) ++
   (List.range c.n).flatMap (fun i => one .plain (.abort i)) ++
   (if s.pending.isEmpty then [] else one (.tick 0) .tick)
 
+/-- order used while an observed start still has to be released: ticks, then the main loop counting
+results (a failure releases), then goroutines giving up (their errors count as failures), and the
+main loop noticing its done context last. -/
+def stMovesRel (c : Cfg) (s : St) : List (MoveKind × St) :=
+  let one := stOne c s
+  (if s.pending.isEmpty then [] else one (.tick 0) .tick) ++ one .plain .recv ++
+  (List.range c.n).flatMap (fun i => one (.begin i) (.begin i)) ++
+  (List.range c.n).flatMap (fun i => one .plain (.abort i)) ++
+  one .plain .drain ++ one .plain .ctxDone
+
 def singleSys (c : Cfg) (termAll : Bool) : Sys St :=
   { moves := stMoves c
+    movesRel := stMovesRel c
+    lateStarts := c.hedging
     delta := fun s s' => { starts := s'.started.drop s.started.length, cleans := s'.cleaned.drop s.cleaned.length
                            ret := if s.main = .running then showMain 0 s'.main else none }
     act := fun s a =>
@@ -301,22 +326,32 @@ def singleSys (c : Cfg) (termAll : Bool) : Sys St :=
 
 /-! ### the multi-set system -/
 
-def multiMoves (cs : List Cfg) (m : MSt) : List (MoveKind × MSt) :=
+def multiMoves (cs : List Cfg) (off : Nat → Nat) (rel : Bool) (m : MSt) : List (MoveKind × MSt) :=
   let one (k : MoveKind) (e : MEv) : List (MoveKind × MSt) := match mstep cs m e with | some m' => [(k, m')] | none => []
   let ks := List.range cs.length
-  ks.flatMap (fun k => one .plain (.set k .ctxDone) ++ one .plain (.set k .recv) ++ one .plain (.set k .drain)) ++
-  ks.flatMap (fun k => match cs[k]? with
-    | some c => (List.range c.n).flatMap (fun i => one .plain (.set k (.begin i))) ++ (List.range c.n).flatMap (fun i => one .plain (.set k (.abort i)))
-    | none => []) ++
-  ks.flatMap (fun k => one .plain (.join k)) ++ one .plain .ret ++
-  ks.flatMap (fun k => if (m.sets k).pending.isEmpty then [] else one (.tick k) (.set k .tick))
+  let ticks := ks.flatMap (fun k => if (m.sets k).pending.isEmpty then [] else one (.tick k) (.set k .tick))
+  let begins := ks.flatMap (fun k => match cs[k]? with
+    | some c => (List.range c.n).flatMap (fun i => one (.begin (off k + i)) (.set k (.begin i)))
+    | none => [])
+  let aborts := ks.flatMap (fun k => match cs[k]? with
+    | some c => (List.range c.n).flatMap (fun i => one .plain (.set k (.abort i)))
+    | none => [])
+  let joins := ks.flatMap (fun k => one .plain (.join k)) ++ one .plain .ret
+  if rel then
+    ticks ++ ks.flatMap (fun k => one .plain (.set k .recv)) ++ begins ++ aborts ++
+    ks.flatMap (fun k => one .plain (.set k .drain)) ++ ks.flatMap (fun k => one .plain (.set k .ctxDone)) ++ joins
+  else
+    ks.flatMap (fun k => one .plain (.set k .ctxDone) ++ one .plain (.set k .recv) ++ one .plain (.set k .drain)) ++
+    begins ++ aborts ++ joins ++ ticks
 
 def sortNat (l : List Nat) : List Nat := (l.toArray.qsort (· < ·)).toList
 
 def multiSys (sets : List SetD) (cs : List Cfg) (termAll : Bool) : Sys MSt :=
   let offs := offsets sets
   let off (k : Nat) : Nat := offs.getD k 0
-  { moves := multiMoves cs
+  { moves := multiMoves cs off false
+    movesRel := multiMoves cs off true
+    lateStarts := cs.any (·.hedging)
     delta := fun m m' =>
       let per := (List.range cs.length).map fun k =>
         let s := m.sets k
@@ -361,6 +396,8 @@ def doSys (d : DCfg) : Sys DSt :=
   { moves := fun s =>
       -- a delayed goroutine blocked on its select is only *forced* to move by a token or a done context
       doMoves d s
+    movesRel := doMoves d
+    lateStarts := false
     delta := fun s s' => { starts := s'.started.drop s.started.length, cleans := []
                            ret := if s.main = .running then showMain 0 s'.main else none }
     act := fun s a =>
@@ -639,7 +676,8 @@ def handleQ (f : List String) : String × String × String :=
                                    cleans := w0.cleans }
               accept (singleSys c o.termAll) s0 (w0' :: wins.drop 1)
             | _ => "bad-sets"
-        (diff, js, tags)
+        -- the search giving up is not a verdict: no diff, but visible in the tags (and the evidence)
+        if diff == "search-budget" then ("-", js, tags ++ " search=budget") else (diff, js, tags)
     | _, _ => ("bad-input", "-", "-")
   | _ => ("bad-fields", "-", "-")
 
